@@ -65,7 +65,8 @@ def rule_R04_1(ctx):
                     root = g.root_fn()
                     root_ty = g.root_fn().locals[src[0][1]] if src and src[0][0] == "arg" and not g.is_closure \
                         else (g.locals[src[0][1]] if src and src[0][0] == "arg" else "")
-                    if src and src[0][0] == "arg" and anchors.is_chain_ty(prog, root_ty):
+                    if src and src[0][0] == "arg" and (anchors.is_chain_ty(prog, root_ty)
+                                                       or (root_ty.startswith("&") and anchors._strip_ty(root_ty) == SCOPESTACK)):
                         want = tuple(("f", p[1]) for p in anchors.chain_pi(prog, root_ty) if p != "*")
                         if tuple(src[1:]) == want:
                             ok = True
@@ -95,7 +96,27 @@ def rule_R04_2(ctx):
     ty = fields[0]["ty"] if fields else ""
     r.inst("ScopeStack field: %s" % ty)
     SCALARS = ("usize", "u8", "u16", "u32", "u64", "i32", "i64", "isize", "bool", "char")
-    cells = [fd for fd in fields if fd["ty"].startswith("std::vec::Vec<std::sync::Arc<std::sync::Mutex<")]
+    MAP = "std::collections::HashMap<std::string::String, (eval::value::SourcedValue"
+
+    def shared_cell(t, depth=0):
+        """Does type t hold scope maps, and only behind an Arc (so that a
+        clone of t shares them)?  A Vec of cells, or an optional link to a
+        node struct that holds its map in a Mutex and a link to its parent."""
+        if depth > 4:
+            return False
+        for wrap in ("std::vec::Vec<", "std::option::Option<"):
+            if t.startswith(wrap) and t.endswith(">"):
+                return shared_cell(t[len(wrap):-1], depth + 1)
+        if t.startswith("std::sync::Arc<") and t.endswith(">"):
+            inner = t[len("std::sync::Arc<"):-1]
+            if inner.startswith("std::sync::Mutex<") and MAP in inner:
+                return True
+            node = prog.adts.get(inner)
+            if node and len(node.get("variants", [])) == 1:
+                ftys = [fd["ty"] for fd in node["variants"][0]["fields"]]
+                return any(x.startswith("std::sync::Mutex<") and MAP in x for x in ftys)
+        return False
+    cells = [fd for fd in fields if shared_cell(fd["ty"])]
     extra = [fd for fd in fields if fd not in cells and fd["ty"] not in SCALARS]
     if len(cells) == 1 and not extra:
         r.ok()
@@ -267,8 +288,11 @@ def rule_R04_4(ctx):
                          % [p.path for p in pushers])
     else:
         nfp = pushers[0]
-        pushes = [c for c in nfp.calls() if (c.res or "").endswith("::push")]
         arcs = [c for c in nfp.calls() if (c.declared or "") == "std::sync::Arc::<T>::new"]
+        pushes = [c for c in nfp.calls() if (c.res or "").endswith("::push")]
+        if not pushes:
+            # linked representation: the new node *is* the push
+            pushes = list(arcs)
         clones = [c for c in nfp.calls() if (c.declared or "") == "std::clone::Clone::clone"
                   or (c.res or c.declared or "").split("::")[-1] in ("cloned", "to_vec", "extend_from_slice")]
         r.inst("new_from_push: %d push, %d Arc::new, %d clone" % (len(pushes), len(arcs), len(clones)))
@@ -332,8 +356,7 @@ def rule_R04_5(ctx, rule_id="R04.5"):
                    "searching outermost-first resolves a shadowed name to the "
                    "outer binding: an inner declaration would not shadow")
     pushers = anchors.scope_pushers(prog)
-    appends = any((c.res or "").endswith("Vec::<T, A>::push") or (c.res or "").endswith("::push")
-                  for p in pushers for c in p.calls())
+    appends = anchors.pusher_appends(prog)
     if not pushers or not appends:
         r.unproven.append("the pushing constructor does not append to a Vec: "
                           "iteration direction not decidable by this rule")
